@@ -58,7 +58,7 @@ McScenarios == {"bu", "temp", "unrep", "ctl", "all", "two"}
 McScnOf(s) == CASE s = "bu" -> ScnBu [] s = "temp" -> ScnTemp [] s = "unrep" -> ScnUnrep [] s = "ctl" -> ScnCtl [] s = "all" -> ScnAll [] s = "two" -> ScnTwo
 
 Bound == TLCGet("level") <= MaxLevel
-View  == <<scn, blk, env, enabled, reps, unrep, grp, genv, err>>
+View  == <<scn, blk, env, enabled, reps, tvalid, unrep, grp, genv, err>>
 \* one JSON line per explored edge: the behaviour that ends with it and the observation after it
 Emit  == PrintT(ToJson([scn |-> scn, path |-> hist', obs |-> Obs']))
 \* the scenario itself, once per initial state (the adapter builds the core and the settings from it)
